@@ -413,7 +413,10 @@ class Run:
         peers = []
         for name, p in node.peers.items():
             c = p.connection
-            cid = idmap.get(c.ident, 99) if c is not None else -1
+            if c is None:
+                cid = -1
+            else:   # also resolves a dangling reference to a connection that has left the tables
+                cid = next((k for k, r in enumerate(self.remotes) if r.fileno == c.socket_fileno), 99)
             peers.append((name, cid, -1 if p.disconnect_reason is None else p.disconnect_reason,
                           -1 if p.last_connect is None else p.last_connect - T0,
                           -1 if p.last_disconnect is None else p.last_disconnect - T0))
